@@ -126,7 +126,7 @@ func (propC11) Generate(r *Rand, tier string) []Case {
 			doc := map[string]any{"t": t.rows}
 			var q *Stmt
 			var tag string
-			switch r.Intn(5) {
+			switch r.Intn(8) {
 			case 0:
 				tag = "fail:where"
 				q = selectStar("t", failingPred(r, "n1"))
@@ -142,6 +142,25 @@ func (propC11) Generate(r *Rand, tier string) []Case {
 				tag = "fail:cte"
 				inner := selectStar("t", failingPred(r, "n1"))
 				q = &Stmt{From: &From{K: "table", Path: []string{"c"}}, Items: []Item{{Star: true}}, With: []CTE{{Name: "c", Q: inner}}}
+			case 5:
+				// a WITH that is not at the top of the statement: inside a derived table / a union branch
+				tag = "cte-inside-derived"
+				innerCte := &Stmt{From: &From{K: "table", Path: []string{"c"}}, Items: []Item{{Star: true}}, With: []CTE{{Name: "c", Q: selectStar("t", nil)}}}
+				q = &Stmt{From: &From{K: "derived", Q: innerCte, Alias: "d"}, Items: []Item{{Star: true}}}
+				if r.Bool() {
+					tag = "cte-inside-union-branch"
+					q = &Stmt{Union: true, All: true, L: selectStar("t", nil), R: innerCte}
+				}
+			case 6:
+				// a select-list subquery whose PREPARATION fails on some rows (its FROM is not an array there)
+				tag = "fail:subquery-prepare"
+				for _, row := range t.rows {
+					if r.Chance(40) {
+						row.(map[string]any)["items"] = "none"
+					}
+				}
+				sub := &Stmt{From: &From{K: "table", Path: []string{"items"}}, Items: []Item{{E: Col("p")}}}
+				q = &Stmt{From: &From{K: "table", Path: []string{"t"}}, Items: []Item{{E: Col("id")}, {E: &Expr{K: "sub", Q: sub}, Alias: "s"}}}
 			default:
 				tag = "fail:raise-in-subquery"
 				call := &Expr{K: "call", Name: "RAISE_WHEN", Items: []*Expr{Cmp(">", Col("p"), Num(1)), Str("boom")}}
